@@ -24,6 +24,11 @@
                                             d = defer.Deferred(); self.transaction.addTransaction(d, tid); return d
     ModbusClientProtocol._handleResponse    handler = self.transaction.getTransaction(reply.transaction_id)
                                             if handler: handler.callback(reply)   else: (dropped)
+    ModbusClientProtocol.close              if self.transport and hasattr(self.transport, "close"): self.transport.close()
+                                            self._connected = False
+                                            (nothing is failed here; the transport's later `connectionLost` is a
+                                            separate operation.  Twisted's TCP and serial transports have no
+                                            attribute `close`, so there only the flag is cleared: `hasClose`)
 
   The framer is abstracted: the operation `reply t tag` is "the framer hands a complete, decodable reply
   frame whose transaction id is `t` to `_handleResponse`" (`tag` identifies the reply's payload).  Both
@@ -88,6 +93,8 @@ inductive Event where
   | errback (id : Nat) (why : Why)
   /-- a Python exception escaped from the operation -/
   | exc (e : PyErr)
+  /-- `transport.close()` was called (by `close()`, when the transport has such a method) -/
+  | tclose
   deriving DecidableEq, Repr, Inhabited
 
 /-- Protocol + transaction manager state.  `pending` is `transaction.transactions`: for the dict manager the
@@ -205,11 +212,17 @@ def connectionLost (v : Variant) (s : State) : State × List Event :=
   let s1 := { s with connected := false }   -- self._connected = False
   lostLoop v (keys s1) s1                   -- for tid in list(self.transaction): ...
 
+/-- `close()`: the pending deferreds are left alone -/
+def close (s : State) (hasClose : Bool) : State × List Event :=
+  ({ s with connected := false }, if hasClose then [.tclose] else [])
+
 inductive Op where
   | connectionMade
   | execute (r : Req)
   | reply (tid tag : Nat)
   | connectionLost
+  /-- the application calls `close()`; `hasClose` = the transport object has an attribute `close` -/
+  | close (hasClose : Bool)
   deriving DecidableEq, Repr, Inhabited
 
 def step (v : Variant) (s : State) : Op → State × List Event
@@ -217,6 +230,7 @@ def step (v : Variant) (s : State) : Op → State × List Event
   | .execute r => execute v s r
   | .reply t tag => reply v s t tag
   | .connectionLost => connectionLost v s
+  | .close hc => close s hc
 
 /-- a history of operations: final state and the whole event trace -/
 def run (v : Variant) (s : State) : List Op → State × List Event
